@@ -4,5 +4,6 @@ CONSTANTS
   Byz <- B12
   Payloads <- Pay2
   ByzDigests <- DAll
+  PrintMod = 1
   AllowOmit = TRUE
 INVARIANTS Agreement Validity Consistency PrintBehaviour
